@@ -1,17 +1,173 @@
 import GS.Model.ReqMgr
+import GSProofs.Lemmas.ReqMgr
 /-!
-# C09 — Responses from other peers cannot affect a request  (work in progress: see below)
+# C09 — Responses from other peers cannot affect a request
+
+Property sentence: *messages from any peer other than the one a request was sent to have no effect
+on that request: they deliver no data, change no status, reach none of the requestor's response or
+block hooks for it, and cannot cancel it or cause messages to be sent on its behalf.*
+
+Model: `GS.ReqMgr` (GS/Model/ReqMgr.lean).  `processResponses q rs` is the fold of the stage list
+`GS.Generated.ReqPipeline.stages`, which translate/reqpipeline regenerates from
+requestmanager/server.go on every check; the theorems below are proved for *every* stage list that
+satisfies `Guarded` and then instantiated with the generated one (`pipeline_guarded`, by `decide`).
+Re-ordering the stages in the Go source so that the hooks (or anything else) run before the peer
+filter makes `pipeline_guarded` false and this file stops compiling.
+
+What "the request" consists of in the model: its table entry (peer, state, terminal error, context
+cancelled, last response as seen by block hooks, loader online flag and loader queue `ingested`,
+waiting CancelRequest callers, pending pause) and every output event that names it (response-hook
+calls, outgoing messages, connection protect/unprotect, values sent on and closing of its channels,
+task-queue operations).
 -/
 namespace GS.C09
 open GS.ReqMgr GS.Generated
 
-/-- every effectful stage of the response pipeline runs after the peer filter: with the linear data
-    flow checked by the translator that is "the first stage is the peer filter". -/
+/-- Every effectful stage of the response pipeline runs after the peer filter.  The translator
+    guarantees linear data flow (each stage consumes what the previous one kept) and every stage
+    other than the filter is effectful, so this is: the first stage is the peer filter. -/
 def Guarded : List StageOp → Bool
   | [] => true
   | op :: _ => op == .filterForPeer
 
-/-- the pipeline extracted from today's `processResponses` is guarded -/
+/-- A response is *foreign* for a message from `q` if its request is in the table for another peer
+    (the situation of the property) or not in the table at all. -/
+def Foreign (t : Table) (q : Peer) (x : Resp) : Prop := keeps t q x = false
+
+instance (t : Table) (q : Peer) (x : Resp) : Decidable (Foreign t q x) := by
+  unfold Foreign; infer_instance
+
+/-- the pipeline extracted from today's `processResponses` is guarded
+    (this is the statement that depends on the Go source) -/
 theorem pipeline_guarded : Guarded ReqPipeline.stages = true := by decide
+
+/-! ## single step -/
+
+/-- General form of the step theorem: with a guarded pipeline, a message from `q` — whatever
+    responses (any status, metadata, extensions, blocks, hook outcomes) it carries — leaves the entry
+    of every request that was sent to another peer exactly as it was, and produces no event that
+    names that request. -/
+theorem noninterference_of_guarded (stages : List StageOp) (hg : Guarded stages = true)
+    (t : Table) (r : ReqId) (st : Entry) (q : Peer) (rs : List Resp)
+    (hr : t.get r = some st) (hq : q ≠ st.peer) :
+    (runStages stages q t rs).1.get r = some st ∧ ∀ ev ∈ (runStages stages q t rs).2, ev.req ≠ r := by
+  cases stages with
+  | nil => simp [runStages, hr]
+  | cons op rest =>
+    have hop : op = .filterForPeer := by simpa [Guarded] using hg
+    subst hop
+    simp only [runStages, runStage_filter]
+    have hkept : ∀ x ∈ rs.filter (keeps t q), x.id ≠ r := by
+      intro x hx hid
+      have hk : keeps t q x = true := (List.mem_filter.mp hx).2
+      unfold keeps at hk
+      rw [hid, hr] at hk
+      simp at hk
+      exact hq hk.symm
+    obtain ⟨f1, f2⟩ := runStages_frame rest q r t (rs.filter (keeps t q)) hkept
+    refine ⟨by rw [f1, hr], ?_⟩
+    intro ev hev
+    simp only [List.nil_append] at hev
+    exact f2 ev hev
+
+/-- **C09, one step.**  For every state `s`, request `r` with table entry `st`, peer `q ≠ st.peer`
+    and ANY responses `rs`: handling `processResponses q rs` leaves `r`'s table entry (status,
+    loader queue, channel-related fields, …) unchanged, leaves the task queue unchanged, and emits no
+    hook event, no outgoing message, no channel event and no other event that mentions `r`.
+    (No reachability hypothesis is needed: it holds in every state.) -/
+theorem noninterference (s : State) (r : ReqId) (st : Entry) (q : Peer) (rs : List Resp)
+    (hr : s.table.get r = some st) (hq : q ≠ st.peer) :
+    (step s (.resp q rs)).1.table.get r = some st
+    ∧ (step s (.resp q rs)).1.pending = s.pending
+    ∧ (step s (.resp q rs)).1.active = s.active
+    ∧ ∀ ev ∈ (step s (.resp q rs)).2.1, ev.req ≠ r := by
+  have h := noninterference_of_guarded ReqPipeline.stages pipeline_guarded s.table r st q rs hr hq
+  exact ⟨h.1, rfl, rfl, h.2⟩
+
+/-! ## whole histories -/
+
+/-- With a guarded pipeline a foreign response can be deleted from a message without changing
+    anything: the resulting table and the complete event list are identical. -/
+theorem erase_foreign_of_guarded (stages : List StageOp) (hg : Guarded stages = true)
+    (t : Table) (q : Peer) (pre post : List Resp) (x : Resp) (hx : Foreign t q x) :
+    runStages stages q t (pre ++ x :: post) = runStages stages q t (pre ++ post) := by
+  cases stages with
+  | nil => simp [runStages]
+  | cons op rest =>
+    have hop : op = .filterForPeer := by simpa [Guarded] using hg
+    subst hop
+    simp only [runStages, runStage_filter]
+    have : (pre ++ x :: post).filter (keeps t q) = (pre ++ post).filter (keeps t q) := by
+      simp [List.filter_append, show keeps t q x = false from hx]
+    rw [this]
+
+theorem step_erase_foreign (s : State) (q : Peer) (pre post : List Resp) (x : Resp)
+    (hx : Foreign s.table q x) :
+    step s (.resp q (pre ++ x :: post)) = step s (.resp q (pre ++ post)) := by
+  simp only [step, processResponses]
+  rw [erase_foreign_of_guarded ReqPipeline.stages pipeline_guarded s.table q pre post x hx]
+
+/-- `ErasedFrom s h h'`: history `h'` is history `h` run from state `s` with some foreign responses
+    deleted — each one foreign in the state in which its message is handled.  Any number of
+    deletions, anywhere, interleaved with arbitrary other operations (the genuine exchange, local
+    API calls, executor steps). -/
+inductive ErasedFrom : State → List Op → List Op → Prop
+  | nil (s : State) : ErasedFrom s [] []
+  | keep (s : State) (op : Op) (ops ops' : List Op) :
+      ErasedFrom (step s op).1 ops ops' → ErasedFrom s (op :: ops) (op :: ops')
+  | erase (s : State) (q : Peer) (pre post : List Resp) (x : Resp) (ops ops' : List Op) :
+      Foreign s.table q x →
+      ErasedFrom s (Op.resp q (pre ++ post) :: ops) ops' →
+      ErasedFrom s (Op.resp q (pre ++ x :: post) :: ops) ops'
+
+/-- **C09 over histories.**  Running any history gives exactly the same final state and the same
+    outputs at every step as running it with the foreign responses deleted: responses from other
+    peers carrying a request's ID are no-ops, however they are interleaved with the genuine exchange.
+    By induction on the history. -/
+theorem noninterference_run (s : State) (h h' : List Op) (he : ErasedFrom s h h') :
+    run s h = run s h' := by
+  induction he with
+  | nil s => rfl
+  | keep s op ops ops' _ ih => simp only [run, ih]
+  | erase s q pre post x ops ops' hx _ ih =>
+    rw [← ih]
+    simp only [run, step_erase_foreign s q pre post x hx]
+
+/-! ## the pre-fix order is refuted (why `Guarded` is needed) -/
+
+/-- the stage order of `processResponses` before commit 33dbc69 -/
+def stagesBeforeFix : List StageOp := [.extensions, .filterForPeer, .updateLast, .ingest, .terminations]
+
+/-- request 1 was sent to peer 0 and is queued -/
+def tableEx : Table := [(1, { peer := 0 })]
+
+/-- a response from peer 2 carrying request 1's ID, for which the response hook asks for an update
+    and then fails -/
+def evilResp : Resp := { id := 1, status := 14, hookExt := true, hookErr := true }
+
+/-- **counterexample for the old order**: the third peer's response reaches the response hook, an
+    update is sent to the third peer, a cancel to the genuine responder, the request is terminated
+    with the hook's error and its channels are closed. -/
+theorem unguarded_counterexample :
+    runStages stagesBeforeFix 2 tableEx [evilResp]
+      = ([], [Ev.hook 2 1 14, Ev.out 2 .update 1, Ev.out 0 .cancel 1,
+              Ev.errSent 1 .hook, Ev.unprotect 0 1, Ev.closed 1]) := by
+  decide
+
+/-- the same input on today's pipeline: nothing happens (non-vacuity of `noninterference`:
+    its hypotheses are met by `tableEx`, request 1, peer 2) -/
+example : processResponses 2 [evilResp] tableEx = (tableEx, []) := by decide
+
+example : ∃ st, tableEx.get 1 = some st ∧ (2 : Peer) ≠ st.peer := ⟨{ peer := 0 }, by decide, by decide⟩
+
+/-- non-vacuity of `noninterference_run`: a history in which a third-peer response (with a failing
+    hook) arrives between the genuine responses of a running request -/
+example : ErasedFrom {}
+    [.newRequest 1 0, .start 1, .resp 2 ([] ++ evilResp :: []), .resp 0 [{ id := 1, status := 20, count := 1 }], .release 1 .ok]
+    [.newRequest 1 0, .start 1, .resp 2 ([] ++ []), .resp 0 [{ id := 1, status := 20, count := 1 }], .release 1 .ok] := by
+  apply ErasedFrom.keep; apply ErasedFrom.keep
+  apply ErasedFrom.erase
+  · decide
+  · apply ErasedFrom.keep; apply ErasedFrom.keep; apply ErasedFrom.keep; exact ErasedFrom.nil _
 
 end GS.C09
